@@ -27,7 +27,8 @@ var c05BinOps = []string{"+", "-", "*", "/", "//", "%", "**", "~", "==", "!=", "
 func c05Operands() []gen.Expr {
 	return []gen.Expr{
 		&gen.ENum{"0"}, &gen.ENum{"1"}, &gen.ENum{"2"}, &gen.ENum{"3"}, &gen.ENum{"7"}, &gen.ENum{"12"}, &gen.ENum{"0.5"}, &gen.ENum{"2.25"}, &gen.ENum{"100"},
-		&gen.EUn{"-", &gen.ENum{"3"}}, &gen.EUn{"-", &gen.ENum{"0.5"}},
+		&gen.ENum{"1000"}, &gen.ENum{"65537"}, &gen.ENum{"66536"},
+		&gen.EUn{"-", &gen.ENum{"3"}}, &gen.EUn{"-", &gen.ENum{"0.5"}}, &gen.EGroup{&gen.EUn{"-", &gen.ENum{"7"}}},
 		&gen.EStr{"a"}, &gen.EStr{"abc"}, &gen.EStr{""}, &gen.EStr{"12"}, &gen.EStr{"2"}, &gen.EStr{"b"},
 		&gen.EBool{true}, &gen.EBool{false}, &gen.ENull{},
 		&gen.EArr{[]gen.Expr{&gen.ENum{"1"}, &gen.ENum{"2"}}}, &gen.EArr{nil}, &gen.EArr{[]gen.Expr{&gen.EStr{"a"}, &gen.EStr{"b"}}},
